@@ -415,6 +415,11 @@ structure DeriveBenign (m : Module) (o : Options) : Prop where
     ∀ mem ∈ nonBuiltin ms, isPlainLeaf m mem.ty = true
   /-- WGSL: a struct ending in a runtime-sized array is never a member or an array element -/
   rtsTop : ∀ h s, s ∈ typeSucc m h → isRtsStruct m s = false
+  /-- a host-shareable struct under the encase switch has at least one member that is not a builtin (a struct of builtins only
+  reachable from a variable is emitted as `pub struct S {}`, which encase's derive refuses: recorded finding) -/
+  nonEmpty : ∀ hd ty ms sp, m.types[hd]? = some ty → ty.inner = .struct ms sp →
+    structWanted m (globalVariableTypes m) hd = true → (globalVariableTypes m).contains hd = true → o.encase = true →
+    nonBuiltin ms ≠ []
 
 /-! ### Facts about the derive list (all 2^6 combinations, by kernel evaluation) -/
 
@@ -656,7 +661,32 @@ theorem C01_derives_satisfiable {m : Module} {o : Options} {src : String} {path 
     (fun ⟨a, b, c⟩ => hx2 ⟨a, b, c⟩) (fun ⟨a, b, c⟩ => hx3 ⟨a, b, c⟩)
   obtain ⟨sh1, sh2, sh3, sh4⟩ := hshape
   simp only [List.append_eq_nil_iff]
-  refine ⟨⟨⟨⟨⟨⟨?_, ?_⟩, ?_⟩, ?_⟩, ?_⟩, ?_⟩, ?_⟩
+  refine ⟨⟨⟨⟨⟨⟨⟨?_, ?_⟩, ?_⟩, ?_⟩, ?_⟩, ?_⟩, ?_⟩, ?_⟩
+  rotate_left 1
+  · -- encase's derive on a struct without fields
+    cases hsh : s.derives.contains "encase::ShaderType" with
+    | false => rfl
+    | true =>
+      rw [hderE] at hsh
+      unfold deriveList deriveListB at hsh
+      have hen : o.encase = true ∧ (globalVariableTypes m).contains hd = true := by
+        cases he : o.encase <;> cases hh : (globalVariableTypes m).contains hd <;>
+          cases o.bmVertex <;> cases o.bmHost <;> cases o.serde <;>
+          cases structHasRtsArrayMember m (nonBuiltin ms) <;> simp_all
+      have hne := hb.nonEmpty hd ty ms sp hty hi hw hen.2 hen.1
+      have hlen : fields.length = (nonBuiltin ms).length := by
+        have := congrArg List.length (structMembersFrom_names _ 0 fields hf)
+        unfold nonBuiltin
+        simpa using this
+      have : s.fields.isEmpty = false := by
+        rw [hfieldsE]
+        cases hfl : fields with
+        | nil =>
+          rw [hfl] at hlen
+          exact (hne (List.eq_nil_of_length_eq_zero hlen.symm)).elim
+        | cons a l => rfl
+      rw [this]; rfl
+  rotate_right 1
   · -- every derive is satisfiable by every field type
     apply List.flatMap_eq_nil_iff.mpr
     intro d hdm
@@ -727,7 +757,8 @@ def deriveBenignB (m : Module) (o : Options) : Bool :=
         ((nonBuiltin ms).all (fun mem =>
           (deriveList o (structHasRtsArrayMember m (nonBuiltin ms)) ((globalVariableTypes m).contains ht.1)).all
             fun tr => memberImpl m tr mem) &&
-         ((globalVariableTypes m).contains ht.1 || (nonBuiltin ms).all fun mem => isPlainLeaf m mem.ty))
+         ((globalVariableTypes m).contains ht.1 || (nonBuiltin ms).all fun mem => isPlainLeaf m mem.ty) &&
+         (!((globalVariableTypes m).contains ht.1 && o.encase) || !(nonBuiltin ms).isEmpty))
     | _ => true) &&
   (List.range m.types.length).all (fun h => (typeSucc m h).all fun s => !isRtsStruct m s)
 
@@ -741,20 +772,21 @@ theorem deriveBenignB_sound (m : Module) (o : Options) (h : deriveBenignB m o = 
       ((nonBuiltin ms).all (fun mem =>
           (deriveList o (structHasRtsArrayMember m (nonBuiltin ms)) ((globalVariableTypes m).contains hd)).all
             fun tr => memberImpl m tr mem) &&
-         ((globalVariableTypes m).contains hd || (nonBuiltin ms).all fun mem => isPlainLeaf m mem.ty)) = true := by
+         ((globalVariableTypes m).contains hd || (nonBuiltin ms).all fun mem => isPlainLeaf m mem.ty) &&
+         (!((globalVariableTypes m).contains hd && o.encase) || !(nonBuiltin ms).isEmpty)) = true := by
     intro hd ty ms sp hty hi hw
     have := hs (hd, ty) (mem_indexed.mpr hty)
     simp only [hi, hw, Bool.not_true, Bool.false_or] at this
     exact this
-  refine ⟨typeArenaOkB_sound m ha, ?_, ?_, ?_⟩
+  refine ⟨typeArenaOkB_sound m ha, ?_, ?_, ?_, ?_⟩
   · intro hd ty ms sp hty hi hw mem hmem tr htr
     have := key hd ty ms sp hty hi hw
     simp only [Bool.and_eq_true, List.all_eq_true] at this
-    exact this.1 mem hmem tr htr
+    exact this.1.1 mem hmem tr htr
   · intro hd ty ms sp hty hi hw hc mem hmem
     have := key hd ty ms sp hty hi hw
     simp only [Bool.and_eq_true, List.all_eq_true, hc, Bool.false_or] at this
-    exact this.2 mem hmem
+    exact this.1.2 mem hmem
   · intro hh s hsm
     by_cases hlt : hh < m.types.length
     · have := hr hh (List.mem_range.mpr hlt)
@@ -762,6 +794,10 @@ theorem deriveBenignB_sound (m : Module) (o : Options) (h : deriveBenignB m o = 
       simpa using this s hsm
     · have : m.types[hh]? = none := List.getElem?_eq_none (by omega)
       simp [typeSucc, this] at hsm
+  · intro hd ty ms sp hty hi hw hc he hnil
+    have := key hd ty ms sp hty hi hw
+    simp only [Bool.and_eq_true, hc, he, hnil] at this
+    simp at this
 
 /-- **C01** (derives), executable hypothesis: the form the driver checks per module. -/
 theorem C01_derives_satisfiable' {m : Module} {o : Options} {src : String} {path : Option String} {out : Out}
